@@ -74,3 +74,35 @@ Proof.
     check_pysqa_config_directory, check_plot_dependency_graph, check_refresh_rate, check_pmi.
   cbn -[Z.eqb Z.quot]. rewrite Hc. reflexivity.
 Qed.
+
+(* ---- the submit-time check of ExecutorBase.submit (regenerated: Gen.BaseExec) ---- *)
+From EL Require Import Proofs.DictFacts Gen.BaseExec.
+
+Definition self_with (mc : pyval) : pyval := sdict [("_max_cores", mc)].
+
+(* a per-call request of more cores than the executor's limit is refused, for every limit
+   (zero included) and every request *)
+Lemma submit_check_rejects rd c m :
+  assoc "cores" rd = Some (VInt c) -> (c >? m)%Z = true ->
+  submit_cores_check (self_with (VInt m)) (sdict rd) = Err "ValueError".
+Proof.
+  intros Hc Hgt. unfold submit_cores_check, self_with. rewrite py_dict_get_s, Hc.
+  cbn -[Z.gtb]. rewrite Hgt. reflexivity.
+Qed.
+
+Lemma submit_check_accepts rd c m :
+  assoc "cores" rd = Some (VInt c) -> (c >? m)%Z = false ->
+  submit_cores_check (self_with (VInt m)) (sdict rd) = Ok (VTuple [sdict rd]).
+Proof.
+  intros Hc Hgt. unfold submit_cores_check, self_with. rewrite py_dict_get_s, Hc.
+  cbn -[Z.gtb]. rewrite Hgt. reflexivity.
+Qed.
+
+(* ... but it is inert when the executor has no _max_cores (all per-call-process and block
+   executors created with disable_dependencies=True) or when the call names no cores *)
+Lemma submit_check_inert_without_limit rd :
+  submit_cores_check (self_with VNone) (sdict rd) = Ok (VTuple [sdict rd]).
+Proof.
+  unfold submit_cores_check, self_with. rewrite py_dict_get_s.
+  destruct (assoc "cores" rd) as [v|]; cbn; [destruct (is_none v)|]; reflexivity.
+Qed.
